@@ -93,7 +93,7 @@ def effectTable : List FnRow := [
   ⟨[], []⟩,  -- 79 astral.moon.moon_mean_anomoly
   ⟨[], []⟩,  -- 80 astral.moon.moon_mean_elongation_from_sun
   ⟨[], []⟩,  -- 81 astral.moon.moon_mean_longitude
-  ⟨[.hiddenState, .unknownCall], [77, 78, 79, 80, 81, 83, 90, 91, 92]⟩,  -- 82 astral.moon.moon_position  (decorator lru_cache; call lru_cache)
+  ⟨[], [77, 78, 79, 80, 81, 83, 90, 91, 92]⟩,  -- 82 astral.moon.moon_position
   ⟨[], []⟩,  -- 83 astral.moon.moon_position._calc_value
   ⟨[.mutatesParam], [89]⟩,  -- 84 astral.moon.moon_transit_event  (store through window; store through window; store through window)
   ⟨[], [88, 142]⟩,  -- 85 astral.moon.moonrise
